@@ -1127,6 +1127,7 @@ pub fn run(tier: &str, seed: u64, widen: bool) -> Report {
     }
     rep.traces_validated = rep.evaluations;
     stream_effects(&mut rep);
+    stream_widen(&mut rep, &mut rng, tier == "thorough" || widen);
     rep
 }
 
@@ -1230,6 +1231,117 @@ fn stream_effects(rep: &mut Report) {
             json!({"compile": "each CT-* marker once", "run": expected_run}),
             "a comptime block's side effects must happen while compiling, once, and not when the program runs",
         );
+    }
+}
+
+/// Globals (and locals) annotated with a WIDER number type than their constant value:
+/// `N : i32 : comptime { -5 }; G : i64 : comptime { N }; H : i64 : N;` — at run time the same
+/// initializer in a local (`r : i64 = N`) yields the value; the comptime / constant forms must too.
+/// Model: CapyV.Comptime.widenIntBytes / widenFloatBytes (driver ops `widen`, `widenf`).
+fn stream_widen(rep: &mut Report, rng: &mut Rng, big: bool) {
+    let ints: [(bool, u32); 6] = [(true, 8), (true, 16), (true, 32), (false, 8), (false, 16), (false, 32)];
+    let mut cases: Vec<((bool, u32), (bool, u32), i128)> = vec![];
+    for (fs, fb) in ints {
+        for (ts, tb) in [(true, 16u32), (true, 32), (true, 64), (false, 16), (false, 32), (false, 64)] {
+            // the value's type must fit the global's: same signedness and wider, or unsigned into a wider signed
+            let fits = tb > fb && (fs == ts || (!fs && ts));
+            if !fits {
+                continue;
+            }
+            let (lo, hi): (i128, i128) = if fs { (-(1i128 << (fb - 1)) + 1, (1i128 << (fb - 1)) - 1) } else { (0, (1i128 << fb) - 1) };
+            let mut vals = vec![lo, hi, 0, if fs { -1 } else { 1 }, if fs { -5 } else { hi - 5 }];
+            let extra = if big { 6 } else { 1 };
+            for _ in 0..extra {
+                vals.push(lo + (rng.below((hi - lo) as u64 + 1) as i128));
+            }
+            for v in vals {
+                cases.push(((fs, fb), (ts, tb), v));
+            }
+        }
+    }
+    let tn = |t: (bool, u32)| format!("{}{}", if t.0 { "i" } else { "u" }, t.1);
+    let mut globals = String::new();
+    let mut body = String::new();
+    for (k, (f, t, v)) in cases.iter().enumerate() {
+        globals.push_str(&format!("N{k} : {} : comptime {{ {v} }};\nG{k} : {} : comptime {{ N{k} }};\nH{k} : {} : N{k};\n", tn(*f), tn(*t), tn(*t)));
+        body.push_str(&format!(
+            "    {{ l : {} = comptime {{ N{k} }}; r : {} = N{k}; core.println(\"#{k} \", G{k}, \" \", H{k}, \" \", l, \" \", r); }}\n",
+            tn(*t),
+            tn(*t)
+        ));
+    }
+    let floats: Vec<&str> = vec!["1.5", "-2.25", "0.1", "1000000.5", "0.0"];
+    for (j, fl) in floats.iter().enumerate() {
+        globals.push_str(&format!("NF{j} : f32 : comptime {{ f32.({fl}) }};\nGF{j} : f64 : comptime {{ NF{j} }};\nHF{j} : f64 : NF{j};\n"));
+        body.push_str(&format!(
+            "    {{ l : f64 = comptime {{ NF{j} }}; r : f64 = NF{j}; core.println(\"#F{j} \", GF{j}, \" \", HF{j}, \" \", l, \" \", r); }}\n"
+        ));
+    }
+    let src = format!("core :: #mod(\"core\");\n{globals}main :: () {{\n{body}}}\n");
+    let out = &e2e::run_all(&[Program::single(&src)], e2e::Limits::default())[0];
+    let reqs: Vec<String> = cases
+        .iter()
+        .map(|(f, t, v)| {
+            let raw = (*v as i128).rem_euclid(1i128 << f.1);
+            format!("C04 widen {} {} {} {}", f.0 as u8, f.1, t.1, raw)
+        })
+        .collect();
+    let answers = lean::ask(&reqs);
+    if !(out.built && out.run_status == Some(0)) {
+        rep.case(Some("widen".into()));
+        rep.oracle_fail(
+            "program-not-built:widen",
+            json!({"stream": "widen", "source": src}),
+            json!(format!("{} {}", out.run_summary(), errors_of(out))),
+            json!("built"),
+            "the program of globals annotated wider than their constant value does not build",
+        );
+        return;
+    }
+    let run = out.stdout();
+    let line_of = |tag: &str| -> Vec<String> {
+        run.lines().find(|l| l.starts_with(&format!("{tag} "))).map(|l| l.split(' ').skip(1).map(|x| x.to_string()).collect()).unwrap_or_default()
+    };
+    for (k, ((f, t, v), ans)) in cases.iter().zip(answers.iter()).enumerate() {
+        rep.case(Some(format!("widen|{}|{}|{v}", tn(*f), tn(*t))));
+        rep.hit(&format!("widen:{}->{}", tn(*f), tn(*t)));
+        rep.traces_validated += 1;
+        let got = line_of(&format!("#{k}"));
+        let input = json!({"stream": "widen", "value_type": tn(*f), "global_type": tn(*t), "value": v.to_string(),
+            "program": format!("N : {} : comptime {{ {v} }}; G : {} : comptime {{ N }}; H : {} : N; l : {} = comptime {{ N }}; r : {} = N; print G H l r", tn(*f), tn(*t), tn(*t), tn(*t), tn(*t))});
+        // model: what a load of the global yields, as the target type prints it
+        if let Some(rest) = ans.strip_prefix(&format!("scalar:{}:", t.1)) {
+            if let Ok(raw) = rest.parse::<u128>() {
+                let shown = if t.0 && raw >= (1u128 << (t.1 - 1)) { (raw as i128 - (1i128 << t.1)).to_string() } else { raw.to_string() };
+                if got.first() != Some(&shown) {
+                    rep.disagree(input.clone(), json!(got), json!(format!("global reads {shown} ({ans})")));
+                }
+            }
+        }
+        let want = vec![v.to_string(); 4];
+        if got != want {
+            rep.oracle_fail(
+                &format!("comptime-differs-from-runtime:widened-global:{}", if got.len() == 4 && got[3] == v.to_string() { "global" } else { "runtime" }),
+                input,
+                json!(got),
+                json!(want),
+                "a constant value stored into a wider global / local (comptime block, constant alias, comptime local, run-time local) does not read back as the value",
+            );
+        }
+    }
+    for (j, fl) in floats.iter().enumerate() {
+        rep.case(Some(format!("widen|f32|f64|{fl}")));
+        rep.hit("widen:f32->f64");
+        let got = line_of(&format!("#F{j}"));
+        if got.len() != 4 || got.iter().any(|g| *g != got[3]) {
+            rep.oracle_fail(
+                "comptime-differs-from-runtime:widened-global:float",
+                json!({"stream": "widen", "value_type": "f32", "global_type": "f64", "value": fl}),
+                json!(got),
+                json!("four equal values (global comptime, global alias, local comptime, run-time local)"),
+                "an f32 constant stored into an f64 global does not read back as the value the run-time conversion gives",
+            );
+        }
     }
 }
 
